@@ -113,18 +113,20 @@ def step (line : String) : String :=
         s!"ok {fmtIds r.ids}/{r.total}/{fmtHist r.hist}/nil"
     | _, _, _ => "bad-op"
   | ["pfetch", desc, size, hi, shards] =>
-    match bool? desc, size.toNat?, hi.toNat?, (shards.splitOn "|").mapM (fun sh => (sh.splitOn "+").mapM parseROut) with
+    match bool? desc, size.toNat?, hi.toNat?,
+        (shards.splitOn "|").mapM (fun sh => if sh = "z" then some [] else (sh.splitOn "+").mapM parseROut) with
     | some desc, some size, some hi, some shs =>
       match proxyFetch desc size hi shs with
       | .ok done q => s!"ok {fmtBool done} {fmtIds q.ids}/{q.total}/{fmtHist q.hist}"
       | .notFound => "err not-found"
       | .error => "err fail"
+      | .panic => "panic"
     | _, _, _, _ => "bad-op"
   | ["pstart", shards] =>
-    match (shards.splitOn "|").mapM (fun sh => sh.toList.mapM (fun c => if c = '1' then some true else if c = '0' then some false else none)) with
+    match (shards.splitOn "|").mapM (fun sh => if sh = "z" then some [] else sh.toList.mapM (fun c => if c = '1' then some true else if c = '0' then some false else none)) with
     | some shs =>
       let r := proxyStart shs
-      s!"{if r.2 then "ok" else "err"} {"|".intercalate (r.1.map bitsOf)}"
+      s!"{if r.2 then "ok" else "err"} {"|".intercalate (r.1.map fun bs => if bs.isEmpty then "z" else bitsOf bs)}"
     | none => "bad-op"
   | ["asyncparams", from_, to_, iv, order] =>
     match from_.toInt?, to_.toInt?, iv.toInt?, order.toInt? with
